@@ -419,6 +419,18 @@ class Tr:
             out.append('%s| some %s =>' % (ind, x))
             out += self.block(s.orelse, ind + '  ')
             return out
+        if isinstance(s, ast.If) and not s.orelse and isinstance(s.test, ast.Compare) and len(s.test.ops) == 1 \
+                and isinstance(s.test.ops[0], ast.Is) and isinstance(s.test.left, ast.Name) \
+                and s.test.left.id in self.opt_params and isinstance(s.test.comparators[0], ast.Constant) \
+                and s.test.comparators[0].value is None and len(s.body) == 1 and isinstance(s.body[0], ast.Return):
+            x = s.test.left.id
+            return ['%slet some %s := %s | return %s' % (ind, x, x, self.ret(s.body[0].value))]
+        if isinstance(s, ast.If) and not s.orelse and isinstance(s.test, ast.UnaryOp) and isinstance(s.test.op, ast.Not) \
+                and isinstance(s.test.operand, ast.Compare) and len(s.test.operand.ops) == 1 \
+                and isinstance(s.test.operand.ops[0], ast.Is) and isinstance(s.test.operand.left, ast.Name) \
+                and s.test.operand.left.id in self.opt_params:
+            x = s.test.operand.left.id
+            return ['%sif let some %s := %s then' % (ind, x, x)] + self.block(s.body, ind + '  ')
         if isinstance(s, ast.Continue):
             return ['%scontinue' % ind]
         if isinstance(s, ast.Break):
@@ -780,6 +792,8 @@ class TrGetMeta(Tr):
     def ret(self, n):
         if isinstance(n, ast.Name) and n.id == 'default':
             return 'none'
+        if isinstance(n, ast.Name) and n.id == 'values':
+            return '(values.head?)'            # the value of a constant: the one element of its list
         if isinstance(n, ast.Subscript) and isinstance(n.value, ast.Name) and n.value.id == 'values':
             return '(some (← pyIndex values %s))' % self.atom(n.slice)
         return super().ret(n)
@@ -902,7 +916,7 @@ def pyIndex {α : Type} (values : List α) (i : Nat) : Except PyErr α :=
 GROUP_OF = {
     'get_valid_classes': 'classes', 'get_multiplicity': 'classes',
     'get_const_period': 'simplify', '_get_const_period': 'simplify', 'is_constant': 'simplify', 'is_repeating': 'simplify', 'simplify': 'simplify',
-    'meta_valid': 'lookup', 'get_meta_index': 'lookup',
+    'meta_valid': 'lookup', 'get_meta_index': 'lookup', 'get_meta': 'lookup',
     'check_valid': 'valid',
     'subset_shape': 'shapes', 'merge_shape': 'shapes',
     'split_specs': 'wrapsplit', 'split_trim': 'wrapsplit',
@@ -910,7 +924,7 @@ GROUP_OF = {
     'get_shape_counts': 'stack', 'chk_order_check': 'stack',
     'global_slice_subset': 'values', 'insert_slice_interleave': 'values', 'insert_sample_interleave': 'values',
     'copy_slice_dest': 'values', 'copy_slice_vals': 'values', 'get_changed_class': 'values',
-    'copy_slice': 'subset', 'copy_sample': 'subset',
+    'copy_slice': 'subset', 'copy_sample': 'subset', 'get_subset_key': 'subset',
     'reclassify': 'insert', 'change_class': 'insert', 'insert_slice': 'insert', 'insert_non_slice': 'insert', 'insert_sample': 'insert',
     'header_slice_times': 'header',
     'chk_equal': 'stackadd', 'chk_close': 'stackadd', 'chk_congruent': 'stackadd', 'add_dcm': 'stackadd',
@@ -1433,6 +1447,46 @@ def translate():
              'the slice-timing block of `DicomStack.to_nifti` (dcmstack.py): the relative acquisition times of the first volume when '
              'every file has a time, every later volume shows the same relative times and they are not all zero; the result is '
              'what the code hands to `set_slice_times` (None: nothing is set)')
+    # ---- get_subset: what happens to one key of the parent held under `src_class` (body of the loop over the classes)
+    f = find_func(dm, 'DcmMetaExtension', 'get_subset')
+    loop = None
+    if f is not None:
+        for st in f.body:
+            if isinstance(st, ast.For) and ast.unparse(st.target) == 'src_class' and ast.unparse(st.iter) == 'valid_classes':
+                loop = st
+
+    def per_key_parent(stmts):
+        out_ = []
+        for st in stmts:
+            if isinstance(st, ast.For) and ast.unparse(st.iter) == 'iteritems(self.get_class_dict(src_class))' and not st.orelse:
+                out_ += per_key_parent(st.body)
+                continue
+            st = copy.copy(st)
+            for fld in ('body', 'orelse'):
+                if isinstance(getattr(st, fld, None), list) and getattr(st, fld):
+                    setattr(st, fld, per_key_parent(getattr(st, fld)))
+            out_.append(st)
+        return out_
+    if loop is None:
+        missing.append('get_subset_key: loop over valid_classes not found')
+    else:
+        call = ('copy_%s null r_shape r_n_slices r_content d_ %sself_n_slices src_class vals %sidx')
+        tr = TrKeyDict({'dim == self.slice_dim': '(some dim == self_slice_dim)'}, {}, cls_vars=['src_class'])
+        tr.stmt_map = {
+            'result.get_class_dict(src_class)[key] = deepcopy(val': ['d_ := d_.set src_class vals'],
+            'continue': ['return d_'],
+            'result._copy_slice(self, src_class, idx)': ['d_ := (← ' + call % ('slice', '', '') + ')'],
+            "result._copy_sample(self, src_class, 'time', idx)": ['d_ := (← ' + call % ('sample', 'self_shape ', '"time" ') + ')'],
+            "result._copy_sample(self, src_class, 'vector', idx)": ['d_ := (← ' + call % ('sample', 'self_shape ', '"vector" ') + ')'],
+        }
+        emit('get_subset_key', '{α : Type} [DecidableEq α] (null : α) (self_shape : List Nat) (self_n_slices self_slice_dim : Option Nat) '
+             '(r_shape : List Nat) (r_n_slices : Option Nat) (r_content : List String) (d : KeyDict α) '
+             '(src_class : Cls) (vals : List α) (dim idx : Nat) : Except PyErr (KeyDict α)',
+             per_key_parent(loop.body) + [ast.parse('return').body[0]], tr,
+             'what `DcmMetaExtension.get_subset(dim, idx)` (dcmmeta.py) does with one key of the parent held under `src_class` with the '
+             'values `vals` (body of its loop over the valid classes, the loops over the keys replaced by their bodies): `d` is what '
+             'the result holds for the key so far, `r_*` describe the result made by `make_empty`',
+             prologue=['let mut d_ := d'])
     # ---- check_valid
     f = find_func(dm, 'DcmMetaExtension', 'check_valid')
     if f is None:
@@ -1539,6 +1593,21 @@ def translate():
              'the index block of `NiftiWrapper.get_meta` (dcmmeta.py): bounds checks, index arithmetic per '
              'classification, final `return default` (= none).  `index` holds naturals (a negative '
              'component is out of bounds in the code and is sent as an out-of-range natural)')
+    # ---- get_meta: the whole method
+    f = find_func(dm, 'NiftiWrapper', 'get_meta')
+    if f is None:
+        missing.append('get_meta: not found')
+    else:
+        tr = TrGetMeta({'self.nii_img.shape': 'img_shape', 'self.nii_img.header.get_dim_info()[2]': '(← pyGet hdr_slice_dim)'},
+                       {'self.meta_valid(classes)': 'meta_valid img_shape meta_shape hdr_slice_dim meta_n_slices aligned classes'},
+                       cls_vars=['classes'])
+        tr.opt_params = {'classes', 'index'}
+        tr.stmt_map = {'values, classes = self.meta_ext.get_values_and_class(key)': []}
+        emit('get_meta', '{α : Type} (img_shape meta_shape : List Nat) (hdr_slice_dim meta_n_slices : Option Nat) (aligned : Bool) '
+             '(values : List α) (classes : Option Cls) (index : Option (List Nat)) : Except PyErr (Option α)', f.body, tr,
+             '`NiftiWrapper.get_meta` (dcmmeta.py), the whole method: `get_values_and_class(key)` is the parameters `values` / `classes` '
+             '(a constant is a one-element list), `default` is none, the header reads and the comparison of the slice directions are the '
+             'parameters of `meta_valid`')
     # ---- get_shape: the count checks (from `n_files = …` to `num_time_points = …`)
     f = find_func(ds, 'DicomStack', 'get_shape')
     blk = None
